@@ -2169,7 +2169,7 @@ impl CharacterData for XmlText {
         if self.length() < offset {
             Err(error::DomException::IndexSizeErr)?
         } else {
-            Ok(self.data.borrow().substring(offset..(offset + count)))
+            Ok(self.data.borrow().substring(offset..offset.saturating_add(count)))
         }
     }
 }
@@ -2185,7 +2185,7 @@ impl CharacterDataMut for XmlText {
     }
 
     fn delete_data(&self, offset: usize, count: usize) -> error::Result<()> {
-        if self.length() < (offset + count) {
+        if self.length() < offset {
             Err(error::DomException::IndexSizeErr)?
         } else {
             self.data.borrow_mut().delete(offset, count);
@@ -2324,7 +2324,7 @@ impl CharacterData for XmlComment {
         if self.length() < offset {
             Err(error::DomException::IndexSizeErr)?
         } else {
-            Ok(self.data.borrow().substring(offset..(offset + count)))
+            Ok(self.data.borrow().substring(offset..offset.saturating_add(count)))
         }
     }
 }
@@ -2340,7 +2340,7 @@ impl CharacterDataMut for XmlComment {
     }
 
     fn delete_data(&self, offset: usize, count: usize) -> error::Result<()> {
-        if self.length() < (offset + count) {
+        if self.length() < offset {
             Err(error::DomException::IndexSizeErr)?
         } else {
             self.data.borrow_mut().delete(offset, count);
@@ -2508,7 +2508,7 @@ impl CharacterData for XmlCDataSection {
         if self.length() < offset {
             Err(error::DomException::IndexSizeErr)?
         } else {
-            Ok(self.data.borrow().substring(offset..(offset + count)))
+            Ok(self.data.borrow().substring(offset..offset.saturating_add(count)))
         }
     }
 }
@@ -2524,7 +2524,7 @@ impl CharacterDataMut for XmlCDataSection {
     }
 
     fn delete_data(&self, offset: usize, count: usize) -> error::Result<()> {
-        if self.length() < (offset + count) {
+        if self.length() < offset {
             Err(error::DomException::IndexSizeErr)?
         } else {
             self.data.borrow_mut().delete(offset, count);
